@@ -213,7 +213,15 @@ def _reads_lazy(f, lazies):
 
 def as_scalar_rules(repo, res):
     """The @as_scalar decorator (one copy per module) unwraps a length-1 result only for a scalar catalog."""
-    want = {nf_text('result[0] if args[0].isscalar and len(result) == 1 else result'), 'result'}
+    from .common import pathsum_spec
+    ref = '''
+def wrapper(*args, **kwargs):
+    result = method(*args, **kwargs)
+    try:
+        return (result[0] if args[0].isscalar and len(result) == 1 else result)
+    except TypeError:
+        return result
+'''
     for fn in ('photutils.segmentation.catalog.as_scalar', 'photutils.aperture.stats.as_scalar'):
         f = repo.functions.get(fn)
         if f is None:
@@ -221,14 +229,8 @@ def as_scalar_rules(repo, res):
         inner = [x for x in ast.walk(f.node) if isinstance(x, ast.FunctionDef) and x is not f.node]
         if len(inner) != 1:
             raise AnalysisError(f'{fn}: expected one wrapper function')
-        rets = {nf(r.value) for r in ast.walk(inner[0]) if isinstance(r, ast.Return) and r.value is not None}
-        ok = rets == want
-        res.oblige('DECOR', f'{fn}: result[0] only when the catalog is scalar AND the result has length 1', ok, nontrivial=True,
-                   sample={'returns': sorted(rets)})
-        if not ok:
-            res.add(Finding('DECOR', fn, 'as_scalar wrapper', f.loc,
-                            f'{fn}: the wrapper returns {sorted(rets)}; it must return `result[0]` only for a scalar catalog with a '
-                            f'length-1 result (a non-scalar catalog that happens to hold one source keeps its array shape)', {}))
+        pathsum_spec(res, 'DECOR', f, ref, 'result[0] only when the catalog is scalar AND the result has length 1 (a non-scalar catalog '
+                     'that happens to hold one source keeps its array shape); the result unchanged when it has no len()', node=inner[0])
 
 
 def id_lookup_rules(repo, res):
